@@ -179,8 +179,9 @@ func vfRoutingMicroBody(ms vfMicroScript, property string) func(s *vrt.Sched) (s
 		if stuck := e.teardown(synctest.Wait); len(stuck) > 0 {
 			e.violate("C08", "handler-stuck-after-shutdown", fmt.Sprint(stuck))
 		} else if property == "C08" {
-			for table, keys := range e.registryKeys() {
-				if len(keys) > 0 {
+			rk := e.registryKeys()
+			for _, table := range []string{"ack-channel", "active-receiver", "cancel-func", "delivery-channel", "ownership"} {
+				if keys := rk[table]; len(keys) > 0 {
 					e.violate("C08", "residue/after-all-streams-ended/"+table, fmt.Sprintf("every stream has ended, but the %s table still holds %v", table, keys))
 				}
 			}
@@ -217,7 +218,13 @@ func (e *vfRouteExec) checkRegistry(baseline map[string][]string) {
 		}
 		return true
 	}
-	for table, want := range baseline {
+	tables := make([]string, 0, len(baseline))
+	for table := range baseline {
+		tables = append(tables, table)
+	}
+	sort.Strings(tables)
+	for _, table := range tables {
+		want := baseline[table]
 		got := now[table]
 		if fmt.Sprint(got) == fmt.Sprint(want) {
 			continue
